@@ -1,3 +1,382 @@
-/-! Property C08 — theorems (statements live here, helper lemmas in Faithful/Lib) -/
+import Faithful.Lib.Request
+import Faithful.Lib.RequestProofs
+import Faithful.Generated.Derefs
+/-!
+# Property C08 — no request can crash the server
+
+For every HTTP request and every gRPC request message the server produces a response or an error status; no
+request makes a handler panic.
+
+The model (`Faithful/Lib/Request.lean`) mirrors the repaired code (fixes C08-1, C08-2, C08-3 and, for the
+`vote` / `failed` optionals of the stream filter, the C19 fix); every Go operation that can fail at run time
+(`*p`, `xs[i]`, `s[n:]`, `Must…`, `make` with a request-sized capacity) is an explicit step returning
+`Outcome.panic`, so the theorems below are about reachability of those steps, for **all** inputs.
+
+`C08_partial` is partial in exactly this sense: decoding of the bytes on the wire (fasthttp, encoding/json,
+jsoniter, protobuf, solana-go) and the data layer behind the parsed request are *assumed* not to panic (hypothesis
+`T.total`; `Backend` answers are plain values).  The tie to the source is `derefs_guarded` (regenerated from the
+tree on every run) and the correspondence run.
+-/
+
 namespace C08
+open Req Req.Outcome
+
+/-! ### request parsing is total -/
+
+theorem parseGetBlock_total : ∀ (p : Option Json) (why : String), parseGetBlock p ≠ .panic why := by
+  intro p
+  rw [← isPanic_false_iff]
+  cases p with
+  | none => rfl
+  | some r => simpa [parseGetBlock, deref_some] using parseGetBlockBody_noPanic r
+
+theorem parseGetTransaction_total : ∀ (p : Option Json) (why : String), parseGetTransaction p ≠ .panic why := by
+  intro p
+  rw [← isPanic_false_iff]
+  cases p with
+  | none => rfl
+  | some r => simpa [parseGetTransaction, deref_some] using parseGetTransactionBody_noPanic r
+
+theorem parseGetBlockTime_total : ∀ (p : Option Json) (why : String), parseGetBlockTime p ≠ .panic why := by
+  intro p
+  rw [← isPanic_false_iff]
+  cases p with
+  | none => rfl
+  | some r => simpa [parseGetBlockTime, deref_some] using parseGetBlockTimeBody_noPanic r
+
+theorem parseGetSignaturesForAddress_total : ∀ (p : Option Json) (why : String), parseGsfa p ≠ .panic why := by
+  intro p
+  rw [← isPanic_false_iff]
+  cases p with
+  | none => rfl
+  | some r => simpa [parseGsfa, deref_some] using parseGsfaBody_noPanic r
+
+-- non-vacuity: the parsers do accept requests (and reject others without panicking)
+example : parseGetBlock (some (.arr [.num ⟨432001, true, true⟩])) = .ok ⟨432001, blockDefaults⟩ := by decide
+example : parseGetBlock (some (.arr [.num ⟨5, true, true⟩, .obj [("rewards", .bool false)]])) =
+    .ok ⟨5, { blockDefaults with rewards := some false }⟩ := by decide
+example : parseGetBlock none = .err "params are required" := rfl
+example : parseGetBlock (some .null) = .err "params must have at least one argument" := by decide
+example : parseGetBlockTime (some (.arr [.num ⟨7, true, true⟩])) = .ok 7 := by decide
+example : parseGetTransaction (some (.arr [.str "abc"])) = .err "failed to parse signature from base58" := by decide
+example : parseGsfa (some (.arr [.str "11111111111111111111111111111111"])) = .ok {} := by decide
+
+/-! ### a successful parse establishes every option the handler later dereferences -/
+
+theorem parseGetBlock_establishes {p : Option Json} {r : GetBlockReq} (h : parseGetBlock p = .ok r) :
+    r.opts.commitment.isSome = true ∧ r.opts.encoding.isSome = true ∧ r.opts.txDetails.isSome = true ∧
+      r.opts.rewards.isSome = true := by
+  cases p with
+  | none => cases h
+  | some j => exact parseGetBlockBody_establishes (by simpa [parseGetBlock, deref_some] using h)
+
+theorem parseGetTransaction_establishes {p : Option Json} {r : GetTxReq} (h : parseGetTransaction p = .ok r) :
+    r.opts.encoding.isSome = true := by
+  cases p with
+  | none => cases h
+  | some j => exact parseGetTransactionBody_establishes (by simpa [parseGetTransaction, deref_some] using h)
+
+example : ∃ p r, parseGetBlock p = .ok r := ⟨some (.arr [.num ⟨1, true, true⟩]), ⟨1, blockDefaults⟩, by decide⟩
+example : ∃ p r, parseGetTransaction p = .ok r :=
+  ⟨some (.arr [.str "1111111111111111111111111111111111111111111111111111111111111111"]), ⟨0, { encoding := some "json" }⟩, by decide⟩
+
+/-! ### the handler preludes (`*params.Options.Rewards`, `*params.Options.Encoding`) are total -/
+
+theorem handler_prelude_total (B : Backend) (r : GetBlockReq)
+    (hr : r.opts.rewards.isSome = true) (he : r.opts.encoding.isSome = true) :
+    ∀ why, preludeGetBlock B r ≠ .panic why := by
+  rw [← isPanic_false_iff]
+  unfold preludeGetBlock
+  obtain ⟨rw_, hrw⟩ := Option.isSome_iff_exists.mp hr
+  obtain ⟨en, hen⟩ := Option.isSome_iff_exists.mp he
+  rw [hrw, hen]
+  simp only [deref_some, bind_ok]
+  split <;> rfl
+
+theorem handler_prelude_tx_total (r : GetTxReq) (he : r.opts.encoding.isSome = true) :
+    ∀ why, preludeGetTransaction r ≠ .panic why := by
+  rw [← isPanic_false_iff]
+  unfold preludeGetTransaction
+  obtain ⟨en, hen⟩ := Option.isSome_iff_exists.mp he
+  rw [hen]
+  rfl
+
+-- non-vacuity: without the established options the prelude does panic
+example : preludeGetBlock ⟨fun _ => true, fun _ => 1, fun _ => true⟩ ⟨1, {}⟩ =
+    .panic "nil pointer dereference: *params.Options.Rewards" := rfl
+example : preludeGetBlock ⟨fun _ => true, fun _ => 1, fun _ => true⟩ ⟨1, blockDefaults⟩ = .ok "data" := rfl
+
+theorem handleGetBlock_total (w : World) (B : Backend) (raw : Option Json) : ∀ why, handleGetBlock w B raw ≠ .panic why := by
+  rw [← isPanic_false_iff]
+  unfold handleGetBlock
+  split
+  · rename_i s hs
+    exact absurd hs (parseGetBlock_total raw s)
+  · rfl
+  · rename_i params hp
+    obtain ⟨_, he, _, hr⟩ := parseGetBlock_establishes hp
+    apply bind_isPanic _ _ (validateEncoding_noPanic _ _)
+    intro v _
+    split
+    · rfl
+    · split
+      · rfl
+      · split
+        · rfl
+        · have := handler_prelude_total B params hr he
+          rw [← isPanic_false_iff] at this
+          exact this
+
+theorem handleGetTransaction_total (w : World) (B : Backend) (raw : Option Json) :
+    ∀ why, handleGetTransaction w B raw ≠ .panic why := by
+  rw [← isPanic_false_iff]
+  unfold handleGetTransaction
+  split
+  · rfl
+  · split
+    · rename_i s hs
+      exact absurd hs (parseGetTransaction_total raw s)
+    · rfl
+    · rename_i params hp
+      have he := parseGetTransaction_establishes hp
+      split
+      · rfl
+      · apply bind_isPanic _ _ (validateEncoding_noPanic _ _)
+        intro v _
+        split
+        · rfl
+        · split
+          · rfl
+          · have := handler_prelude_tx_total params he
+            rw [← isPanic_false_iff] at this
+            exact this
+
+theorem handleRequest_total (w : World) (B : Backend) (rq : RpcRequest) : ∀ why, handleRequest w B rq ≠ .panic why := by
+  intro why
+  unfold handleRequest
+  split
+  · exact handleGetBlock_total w B _ why
+  · split
+    · exact handleGetTransaction_total w B _ why
+    · split
+      · unfold handleGsfa
+        split
+        · rename_i s hs; exact absurd hs (parseGetSignaturesForAddress_total _ s)
+        · simp [invalidParams]
+        · split <;> simp [dataResp]
+      · split
+        · unfold handleGetBlockTime
+          split
+          · rename_i s hs; exact absurd hs (parseGetBlockTime_total _ s)
+          · simp [invalidParams]
+          · split <;> simp [dataResp]
+        · repeat' split
+          all_goals simp
+
+/-- every HTTP request is answered: the closure of `newMultiEpochHandler` never panics -/
+theorem http_total (w : World) (B : Backend) (r : HttpReq) : ∀ why, handleHttp w B r ≠ .panic why := by
+  intro why
+  unfold handleHttp
+  split
+  · simp
+  · split
+    · simp
+    · split
+      · have := apiHandler_noPanic w r
+        rw [isPanic_false_iff] at this
+        exact this why
+      · split
+        · simp
+        · split
+          · simp
+          · split
+            · simp
+            · split
+              · simp
+              · exact handleRequest_total w B _ why
+
+-- non-vacuity: one request of each kind
+example : handleHttp ⟨[(1, true)], false⟩ ⟨fun _ => true, fun _ => 1, fun _ => true⟩
+    ⟨"POST", "/", 40, .json (.obj [("method", .str "getBlock"), ("id", .num ⟨1, true, true⟩)])⟩ = .ok "200:e-32602" := by decide
+example : handleHttp ⟨[(1, true)], false⟩ ⟨fun _ => true, fun _ => 1, fun _ => true⟩
+    ⟨"POST", "/", 40, .json (.obj [("method", .str "getBlock"), ("params", .arr [.num ⟨432001, true, true⟩])])⟩ = .ok "data" := by decide
+example : handleHttp ⟨[], false⟩ ⟨fun _ => true, fun _ => 1, fun _ => true⟩ ⟨"GET", "/api/v1/slot-to-cid/x", 0, .malformed⟩ = .ok "400:empty" := by decide
+
+/-! ### gRPC: stream filter, account filter, dispatcher -/
+
+/-- the filter step is total once the account strings have been validated (which `StreamTransactions` now does
+    first); absent `vote` / `failed` need no hypothesis at all -/
+theorem grpc_filter_total (f : Option TxFilter) (hv : validateFilter f = true) (gsfaLoaded : Bool) (tx : TxFacts) :
+    ∀ why, filterStep f gsfaLoaded tx ≠ .panic why := by
+  rw [← isPanic_false_iff]
+  exact filterStep_noPanic f hv gsfaLoaded tx
+
+-- non-vacuity: `StreamTransactionsFilter{}` (all optionals absent) passes a transaction; an invalid account is
+-- what the hypothesis excludes
+example : filterStep (some ⟨none, none, [], [], []⟩) false ⟨true, true, fun _ => false⟩ = .ok true := by decide
+example : validateFilter (some ⟨none, none, ["11111111111111111111111111111111"], [], []⟩) = true := by decide
+example : validateFilter (some ⟨none, none, [], [""], []⟩) = false := by decide
+example : (filterStep (some ⟨some true, some true, [], ["0OIl"], []⟩) false ⟨false, false, fun _ => false⟩).isPanic = true := by decide
+
+/-- `StreamTransactions` for every request (any slots, absent optionals, malformed accounts, any transactions met) -/
+theorem streamTransactions_total (w : World) (hw : w.WF) (r : StreamTxReq) (txs : List TxFacts) :
+    ∀ why, streamTransactions w r txs ≠ .panic why := by
+  rw [← isPanic_false_iff]
+  unfold streamTransactions
+  split
+  · rfl
+  · rename_i hv
+    have hv : validateFilter r.filter = true := by simpa using hv
+    have hcap : gsfaReadersCap w = .ok () := by
+      unfold gsfaReadersCap makeCap
+      simp only [World.WF] at hw
+      simp [hw]
+    rw [hcap]
+    simp only [bind_ok]
+    have hscan : ∀ g, (scanTxs r.filter g txs).isPanic = false := fun g => scanTxs_noPanic _ hv g txs
+    split
+    · split
+      · rfl
+      · exact bind_isPanic _ _ (hscan _) (fun _ _ => rfl)
+    · apply bind_isPanic
+      · cases hf : r.filter with
+        | none => rfl
+        | some f =>
+          simp only [validateFilter, hf, Bool.and_eq_true] at hv
+          exact mustAll_noPanic _ hv.1.1
+      · intro _ _
+        exact bind_isPanic _ _ (hscan _) (fun _ _ => rfl)
+
+example : streamTransactions ⟨[(1, true)], false⟩ ⟨432000, some 432020, some ⟨none, none, [], [], []⟩, false⟩
+    [⟨true, false, fun _ => false⟩] = .ok "data" := by decide
+example : streamTransactions ⟨[(1, true)], false⟩ ⟨432000, some 432020, some ⟨some true, some true, [""], [], []⟩, false⟩ [] =
+    .ok "InvalidArgument" := by decide
+example : streamTransactions ⟨[], false⟩ ⟨5, some (2 ^ 64 - 1), none, true⟩ [] = .ok "Canceled" := by decide
+
+theorem blockContainsAccounts_total (txs : List BcaTx) : ∀ why, blockContainsAccounts txs ≠ .panic why := by
+  rw [← isPanic_false_iff]
+  induction txs with
+  | nil => rfl
+  | cons t rest ih =>
+    unfold blockContainsAccounts
+    split
+    · exact ih
+    · split
+      · rfl
+      · split
+        · exact ih
+        · rename_i hm
+          have hm : t.metaOk = true := by simpa using hm
+          simp only [hm, if_true, deref_some, bind_ok]
+          split
+          · rfl
+          · exact ih
+
+example : blockContainsAccounts [⟨true, false, false, false⟩, ⟨true, false, true, true⟩] = .ok true := by decide
+
+theorem streamBlocks_total (r : StreamBlocksReq) (blocks : List (List BcaTx)) : ∀ why, streamBlocks r blocks ≠ .panic why := by
+  rw [← isPanic_false_iff]
+  unfold streamBlocks
+  have hgo : ∀ nf, (scanBlocks nf blocks).isPanic = false := by
+    intro nf
+    induction blocks with
+    | nil => rfl
+    | cons b rest ih =>
+      unfold scanBlocks
+      split
+      · have := blockContainsAccounts_total b
+        rw [← isPanic_false_iff] at this
+        exact bind_isPanic _ _ this (fun _ _ => ih)
+      · exact ih
+  simp only
+  split
+  · rfl
+  · exact bind_isPanic _ _ (hgo _) (fun _ _ => rfl)
+
+example : streamBlocks ⟨432000, none, some ["x"], false⟩ [[⟨true, false, false, false⟩]] = .ok "data" := by decide
+
+theorem get_dispatch_total (w : World) (items : List GetItem) (tailErr : Bool) (sf : Nat) (sent : List Resp) :
+    ∀ why, getLoop w items tailErr sf sent ≠ .panic why := by
+  rw [← isPanic_false_iff]
+  induction items generalizing sent with
+  | nil => rfl
+  | cons it rest ih =>
+    unfold getLoop
+    cases it <;> simp only <;> first | rfl | (split <;> first | rfl | exact ih _)
+
+example : getLoop ⟨[], false⟩ [.version, .block 5, .nothing, .version] false 0 [] = .ok (["version", "epoch"], "InvalidArgument") := by decide
+
+/-! ### the whole server -/
+
+/-- No request makes a handler panic — under the explicit hypothesis that third-party decoding of the wire
+    bytes is total (`T.total`), and with the data layer's answers taken as values (`Backend`).
+    PARTIAL: fasthttp, encoding/json, jsoniter, protobuf and solana-go decoding and the data layer below the
+    parsed request are assumed, not proved, to be panic-free (the data layer is property C12's subject). -/
+theorem C08_partial (T : ThirdParty) (hT : T.total) (w : World) (hw : w.WF) (B : Backend) :
+    ∀ (bytes : List UInt8) (why : String), handleWire T w B bytes ≠ .panic why := by
+  intro bytes why
+  unfold handleWire
+  split
+  · rename_i r _
+    cases r with
+    | http r => exact http_total w B r why
+    | grpcGetVersion => simp [handle]
+    | grpcGetBlock s => simp [handle]
+    | grpcGetBlockTime s => simp [handle]
+    | grpcGetTransaction => simp [handle]
+    | grpcStreamBlocks r bs => exact streamBlocks_total r bs why
+    | grpcStreamTransactions r txs => exact streamTransactions_total w hw r txs why
+    | grpcGet items te sf =>
+      simp only [handle]
+      have := get_dispatch_total w items te sf []
+      rw [← isPanic_false_iff] at this
+      have h2 := bind_isPanic (getLoop w items te sf []) (fun p => Outcome.ok (String.intercalate "," p.1 ++ ";" ++ p.2)) this (fun _ _ => rfl)
+      rw [isPanic_false_iff] at h2
+      exact h2 why
+  · simp
+  · rename_i s hs
+    exact absurd hs (hT bytes s)
+
+-- non-vacuity of the hypothesis: a total decoder exists, and the conclusion is about real answers
+example : ∃ T : ThirdParty, T.total := ⟨⟨fun _ => .ok .grpcGetVersion⟩, by intro b w; simp⟩
+example : handleWire ⟨fun _ => .ok (.grpcGetBlock 5)⟩ ⟨[(1, false)], false⟩ ⟨fun _ => true, fun _ => 0, fun _ => true⟩ [] = .ok "epoch" := by decide
+
+/-! ### the defects of the pinned tree, formally -/
+
+/-- `parseGetBlockRequest(nil)` — a request without a `params` member — dereferences nil (same for the siblings) -/
+theorem pinned_parse_panics :
+    parseGetBlockPinned none = .panic "nil pointer dereference: *raw in parseGetBlockRequest" ∧
+    parseGetTransactionPinned none = .panic "nil pointer dereference: *raw in parseGetTransactionRequest" ∧
+    parseGetBlockTimePinned none = .panic "nil pointer dereference: *raw in parseGetBlockTimeRequest" ∧
+    parseGsfaPinned none = .panic "nil pointer dereference: *raw in parseGetSignaturesForAddressParams" :=
+  ⟨rfl, rfl, rfl, rfl⟩
+
+/-- but `"params": null` was always fine -/
+theorem pinned_parse_null_ok : parseGetBlockPinned (some .null) = .err "params must have at least one argument" := by decide
+
+/-- `StreamTransactionsFilter{}`: `*filter.Vote` on an absent optional -/
+theorem pinned_filter_panics (tx : TxFacts) :
+    filterStepPinned (some ⟨none, none, [], [], []⟩) false tx = .panic "nil pointer dereference: *filter.Vote" := rfl
+
+/-- a malformed account reaches `MustPublicKeyFromBase58` when nothing validates the filter -/
+theorem pinned_must_panics : (streamTransactionsPinned ⟨[(1, true)], false⟩
+    ⟨432000, some 432020, some ⟨some true, some true, [], [""], []⟩, false⟩ [⟨false, false, fun _ => false⟩]).isPanic = true := by decide
+
+/-- `make([]*Epoch, 0, endEpoch-startEpoch+1)`: an end slot far ahead, or more than an epoch behind the start -/
+theorem pinned_makeslice_panics :
+    (gsfaReadersCapPinned 5 (2 ^ 64 - 1)).isPanic = true ∧ (gsfaReadersCapPinned 864005 5).isPanic = true := by decide
+
+/-- `blockContainsAccounts` with a transaction whose metadata does not parse: nil container dereferenced -/
+theorem pinned_bca_panics : blockContainsAccountsPinned [⟨true, false, false, false⟩] =
+    .panic "nil pointer dereference: meta.GetLoadedAccounts()" := rfl
+
+/-! ### the tie to the source, regenerated on every run -/
+
+/-- every pointer dereference, unchecked type assertion, `Must…` call, constant index / slice expression and
+    request-sized `make` on a request-derived value in the anchored request-parsing functions and the gRPC
+    filter / dispatch code is dominated by a guard the translator recognises (unknown ⇒ unguarded) -/
+theorem derefs_guarded : ∀ d ∈ Generated.derefs, d.guarded = true := by decide
+
+example : Generated.derefs ≠ [] := by decide
+
 end C08
